@@ -104,6 +104,20 @@ fn all_configs() -> Vec<Cfg> {
             }
         }
     }
+    // limits far beyond anything that is ever stored ("effectively unbounded"), and ttl = 0
+    // (every entry is expired as soon as it is stored: never served, purged on access)
+    for flavour in flavour_list() {
+        for policy in Policy::ALL {
+            for (limit, ttl) in [(Some(usize::MAX), None), (Some(1_000_000_000_000_000_000usize), Some(2u64)), (Some(1usize << 32), None), (None, Some(0u64)), (Some(2), Some(0)), (Some(usize::MAX), Some(u64::MAX))] {
+                for mem in [None, Some(MEMS[1])] {
+                    let fws: &[Option<f64>] = if policy == Policy::Tlru { &FWS[..5] } else { &FWS[..1] };
+                    for fw in fws.iter().step_by(4) {
+                        v.push(Cfg { flavour, policy, limit, ttl, max_memory: mem, fw: *fw, age_exact: false });
+                    }
+                }
+            }
+        }
+    }
     v
 }
 
@@ -116,7 +130,7 @@ fn key_of(s: &str) -> Option<Key> {
 
 /// Generates a history for `cfg`.
 fn gen_history(cfg: &Cfg, rng: &mut Rng, next_id: &mut u64) -> (Vec<Op>, bool) {
-    let cap = cfg.limit.unwrap_or(if cfg.max_memory.is_some() { 4 } else { 3 });
+    let cap = cfg.limit.unwrap_or(if cfg.max_memory.is_some() { 4 } else { 3 }).min(5);
     let alphabet = cap + 1 + rng.usize(3);
     let len = 40 + rng.usize(160);
     let aligned = cfg.flavour == Flavour::Async && rng.chance(1, 2);
@@ -178,7 +192,7 @@ fn gen_history(cfg: &Cfg, rng: &mut Rng, next_id: &mut u64) -> (Vec<Op>, bool) {
         }
     }
     // fill probe: fresh keys beyond the alphabet, then read everything back
-    let probe = cfg.limit.unwrap_or(4) + 2;
+    let probe = cfg.limit.unwrap_or(4).min(6) + 2;
     for i in 0..probe {
         *next_id += 1;
         let t = cfg.max_memory.map(|m| m / 3).unwrap_or(48);
